@@ -89,6 +89,20 @@ def run(prop, tier, seed, replay=None):
                 n = rnd.randint(5, 14)
                 s = [rnd.choice(longer) for _ in range(n)]
                 cases.append(fam_labels.record_parse_case('R-%06d' % k, s, mods, origin='random'))
+            # grammar-directed labels: every combination (and every order) of the documented decorations
+            # LABEL(-GF)?(=GAP)?(-CO)?'? - the stripping steps interact only when several are present
+            import itertools
+            k = 0
+            for base in ('A', 'Ab', 'A1'):
+                for gf in ('', '-B', '-b1', '--', '-B-A'):
+                    for gap in ('', '=1', '=12'):
+                        for co in ('', '-2', '-21'):
+                            for hd in ('', "'"):
+                                mids = [x for x in (gf, gap, co) if x]
+                                for perm in set(itertools.permutations(mids)):
+                                    k += 1
+                                    cases.append(fam_labels.record_parse_case('G-%05d' % k, list(base + ''.join(perm) + hd),
+                                                                              mods, origin='grammar'))
         byid = {c['id']: c for c in cases}
         findings = core.load_findings()
         verdicts, wall = core.validate_traces(w, 'Trace_Labels', cases, cfg=TRACE_CFG % '', chunk=4000)
